@@ -86,9 +86,14 @@ structure Facts where
   syncqFifo : Bool          -- SyncQueue: `buffer.Add` / `Peek` + `Remove`
   priqSeqIncrements : Bool  -- `curSeq++` before `heap.Push` with `seq: pq.curSeq`
   priqHeap : Bool           -- `heap.Push` / `heap.Pop` on `EntryList`, `Swap`/`Push`/`Pop` as in container/heap's example
+  anywayShape : Bool        -- the five `*Anyway` adds: `for { err = Add(x); if err == ErrFull { Sleep } else { return err } }`
+  accessorShape : Bool      -- IsClosed / IsCleared / Size return the field under the lock; WaitClose / WaitClear select on the channel
+  closesStopChan : Bool     -- mux/mq `Close`, mq `TryClose` close `stopChan`; mq `TryClear` closes `clearChan`
+  lockCovered : Bool        -- AST: every method touching a guarded field locks first and unlocks (deferred / before every return)
+  methodSets : Bool         -- the queue types' method sets over ALL files of their packages are exactly the modelled ones
 deriving DecidableEq, Repr
 
-def Facts.expected : Facts := ⟨true, true, true, true, true, true, true, true, true, true, true⟩
+def Facts.expected : Facts := ⟨true, true, true, true, true, true, true, true, true, true, true, true, true, true, true, true⟩
 
 /-- configurations for which the property theorems are proved -/
 def Proved (c : Cfg) : Prop := c = Cfg.expected
@@ -97,8 +102,13 @@ instance : DecidablePred Proved := fun c => by unfold Proved; exact inferInstanc
 def Cfg.shape (c : Cfg) : Kind → Shape
   | .q => c.q | .async => c.async | .mux => c.mux | .mq => c.mq | .syncq => Shape.expected
 
+/-- how an `*Anyway` add that found the queue full ended -/
+inductive SpinEnd | ok | closed | forever
+deriving DecidableEq, Repr
+
 inductive Out
   | ok | closed | full | ctrlFull
+  | spun (popped : List Nat) (fin : SpinEnd)  -- an `*Anyway` add retried while full; what was popped meanwhile; how it ended
   | val (x : Nat)
   | nil          -- SyncQueue.Pop on a closed empty queue / PriQueue.Pop on an empty queue
   | none         -- SyncQueue.TryPop: (nil, false)
@@ -187,6 +197,36 @@ def popNow (sh : Shape) (anyway : Bool) (s : LQ) : Option (LQ × Out) :=
 
 def closeQ (s : LQ) : LQ := { s with closed := true }
 
+/-! ### the `*Anyway` adds: `for { err = Add(x); if err == ErrFull { Sleep } else { return err } }`
+
+Sequentially such a call returns the add's result unless the queue is full; then it retries until somebody makes
+room or closes the queue. The model resolves the retry loop the way the harness does: `resolvePop = false` — the queue
+is closed (the retry then returns whatever the add says on a closed queue); `resolvePop = true` — items are taken with
+`PopAnyway` until the add is no longer refused for capacity. -/
+
+def isFullOut : Out → Bool
+  | .full => true | .ctrlFull => true | _ => false
+
+def spinEnd : Out → SpinEnd
+  | .ok => .ok | .closed => .closed | _ => .forever
+
+def drainFor (add : LQ → LQ × Out) (popA : LQ → Option (LQ × Out)) : Nat → LQ → List Nat → LQ × Out
+  | 0, s, acc => (s, .spun acc.reverse .forever)
+  | n + 1, s, acc =>
+    match popA s with
+    | some (s', .val v) =>
+      let r := add s'
+      if isFullOut r.2 then drainFor add popA n s' (v :: acc) else (r.1, .spun (v :: acc).reverse (spinEnd r.2))
+    | _ => (s, .spun acc.reverse .forever)
+
+def addAnyway (add : LQ → LQ × Out) (popA : LQ → Option (LQ × Out)) (resolvePop : Bool) (s : LQ) : LQ × Out :=
+  let r := add s
+  if !isFullOut r.2 then r
+  else if resolvePop then drainFor add popA (s.size + 1) s []
+  else
+    let r2 := add (closeQ s)
+    (r2.1, .spun [] (spinEnd r2.2))
+
 /-- `TryClose` (MQ) -/
 def tryClose (s : LQ) : LQ × Out :=
   if s.closed then (s, .bool true)
@@ -225,22 +265,26 @@ def syncTryPop (sh : SyncShape) (s : LQ) : LQ × Out :=
 
 inductive Op
   | add (x : Nat) | prior (x : Nat) | addCtrl (x : Nat) | priorCtrl (x : Nat)
+  | addAny (x : Nat) (resolvePop : Bool) | addCtrlAny (x : Nat) (resolvePop : Bool)
   | pop | popAnyway | tryPop
   | close | tryClose | tryClear
-  | len | isClosed | isCleared
+  | len | isClosed | isCleared | size | waitClose | waitClear
 deriving DecidableEq, Repr
 
 def orBlock (s : LQ) : Option (LQ × Out) → LQ × Out
   | some r => r
   | none => (s, .wouldBlock)
 
-def stepPipe (sh : Shape) (hasIsClosed : Bool) (s : LQ) : Op → LQ × Out
+def stepPipe (sh : Shape) (k : Kind) (s : LQ) : Op → LQ × Out
   | .add x => addReq sh s x
   | .prior x => addPrior sh s x
+  | .addAny x rp => addAnyway (fun t => addReq sh t x) (popNow sh true) rp s
   | .pop => orBlock s (popNow sh false s)
   | .popAnyway => orBlock s (popNow sh true s)
   | .close => (closeQ s, .ok)
-  | .isClosed => if hasIsClosed then (s, .bool s.closed) else (s, .badOp)
+  | .isClosed => if k == .async || k == .mux then (s, .bool s.closed) else (s, .badOp)
+  | .size => if k == .async then (s, .num s.reqCap) else (s, .badOp)
+  | .waitClose => if k == .mux then (s, if s.closed then .ok else .wouldBlock) else (s, .badOp)
   | _ => (s, .badOp)
 
 def stepMQ (sh : Shape) (s : LQ) : Op → LQ × Out
@@ -248,6 +292,8 @@ def stepMQ (sh : Shape) (s : LQ) : Op → LQ × Out
   | .prior x => addPrior sh s x
   | .addCtrl x => addCtrl sh s x
   | .priorCtrl x => addPriorCtrl sh s x
+  | .addAny x rp => addAnyway (fun t => addReq sh t x) (popNow sh true) rp s
+  | .addCtrlAny x rp => addAnyway (fun t => addCtrl sh t x) (popNow sh true) rp s
   | .pop => orBlock s (popNow sh false s)
   | .popAnyway => orBlock s (popNow sh true s)
   | .close => (closeQ s, .ok)
@@ -255,6 +301,8 @@ def stepMQ (sh : Shape) (s : LQ) : Op → LQ × Out
   | .tryClear => tryClear s
   | .isClosed => (s, .bool s.closed)
   | .isCleared => (s, .bool s.cleared)
+  | .waitClose => (s, if s.closed then .ok else .wouldBlock)
+  | .waitClear => (s, if s.cleared then .ok else .wouldBlock)
   | _ => (s, .badOp)
 
 def stepSync (sh : SyncShape) (s : LQ) : Op → LQ × Out
@@ -267,9 +315,9 @@ def stepSync (sh : SyncShape) (s : LQ) : Op → LQ × Out
 
 def step (c : Cfg) (s : LQ) (op : Op) : LQ × Out :=
   match s.kind with
-  | .q => stepPipe c.q false s op
-  | .async => stepPipe c.async true s op
-  | .mux => stepPipe c.mux true s op
+  | .q => stepPipe c.q .q s op
+  | .async => stepPipe c.async .async s op
+  | .mux => stepPipe c.mux .mux s op
   | .mq => stepMQ c.mq s op
   | .syncq => stepSync c.syncq s op
 
